@@ -17,6 +17,7 @@ Do == CASE A.op = "reset" -> arr' = [x \in Arr |-> <<>>] /\ minCap' = [x \in Arr
         [] A.op = "swap" -> Swap [] A.op = "copyAssign" -> CopyAssign(A.x) [] A.op = "copyConstruct" -> CopyConstruct(A.x)
         [] A.op = "moveAssign" -> MoveAssign(A.x) [] A.op = "setElt" -> SetElt(A.x, A.i, A.v)
         [] A.op = "viewFill" -> ViewFill(A.x, A.i, A.n, A.v) [] A.op = "viewAssign" -> ViewAssign(A.x, A.i, A.j, A.n)
+        [] A.op = "handle" -> Handle(A.x, A.i, A.n, A.v, A.j, A.k)
         [] OTHER -> FALSE
 TNext == /\ l <= Len(Log) /\ l' = l + 1
          /\ IF ENABLED Do
